@@ -23,6 +23,9 @@ import (
 	"go.opentelemetry.io/collector/service/internal/builders"
 )
 
+// vLastCfg: the service::extensions list of the last vBuildExts call, as configured (indices, with repetitions)
+var vLastCfg []int
+
 func vBuildExts(rng *vRand, specs []vExtSpec) (*vWorld, *Extensions, error) {
 	w := &vWorld{}
 	cfgs := map[component.ID]component.Config{}
@@ -35,6 +38,17 @@ func vBuildExts(rng *vRand, specs []vExtSpec) (*vWorld, *Extensions, error) {
 		j := rng.Intn(i + 1)
 		cfg[i], cfg[j] = cfg[j], cfg[i]
 	}
+	var dcfg Config
+	vLastCfg = nil
+	for _, i := range vDupIdx(rng, len(cfg)) {
+		dcfg = append(dcfg, cfg[i])
+		for _, s := range specs {
+			if vExtID(s.idx) == cfg[i] {
+				vLastCfg = append(vLastCfg, s.idx)
+			}
+		}
+	}
+	cfg = dcfg
 	set := Settings{
 		Telemetry:  componenttest.NewNopTelemetrySettings(),
 		BuildInfo:  component.NewDefaultBuildInfo(),
@@ -208,8 +222,13 @@ func TestVerifC10Ext(t *testing.T) {
 				for _, e := range w.exts {
 					if e.id == id {
 						order = append(order, e.idx)
+						break
 					}
 				}
+			}
+			cfgIdx := append([]int{}, vLastCfg...)
+			if len(cfgIdx) > len(exts) {
+				out.Stat("extensions-configured-with-repetitions", 1)
 			}
 			pl.cx.arm(nil, byIdx)
 			var errStop error
@@ -219,8 +238,9 @@ func TestVerifC10Ext(t *testing.T) {
 			if w.ret == nil {
 				w.ret = map[[2]int]bool{}
 			}
-			c := &vCase{kind: 1, exts: exts, deps: deps, extOrder: order, fxStart: pl.fxStart, fxStop: pl.fxStop, log: w.log, cx: pl.cx, ret: w.ret}
+			c := &vCase{kind: 1, exts: exts, deps: deps, extOrder: order, fxStart: pl.fxStart, fxStop: pl.fxStop, log: w.log, cx: pl.cx, ret: w.ret, iStart: cfgIdx}
 			c.errs = vErrList(errAll)
+			vExtInstances(out, c.term(), w)
 			if pl.cx.any() {
 				out.Stat("ctx-scenario", 1)
 			}
